@@ -511,7 +511,9 @@ class NDCubeBase(NDCubeABC, astropy.nddata.NDData, NDCubeSlicingMixin):
             if not wcs:
                 return tuple()
 
-        axes_coords = values_to_high_level_objects(*axes_coords, low_level_wcs=wcs)
+        # The low-level values must be handed over as plain arrays, not Quantities.
+        axes_coords = values_to_high_level_objects(*[getattr(coord, "value", coord) for coord in axes_coords],
+                                                   low_level_wcs=wcs)
 
         if not axes:
             return tuple(axes_coords)
